@@ -1,14 +1,19 @@
 #!/bin/sh
 # usage: tools/trypatch.sh <patch.diff> <ID> [<ID>...]
-# Applies a patch to /repo's working tree, runs the quick checks, restores /repo.
+# Applies a patch to a scratch worktree of /repo's HEAD, runs the quick checks against it
+# (VERIF_REPO), removes the worktree. /repo and /verif/evidence are not touched.
 # Prints one line per check: <ID> rc=<n> <first VIOLATION/KNOWN line>
-P=$1; shift
-git -C /repo apply "$P" || { echo "patch does not apply"; exit 3; }
-trap 'git -C /repo checkout -- . ' EXIT INT TERM
-(cd /repo && go build ./... ) || { echo "does not build"; exit 3; }
+P=$(readlink -f "$1"); shift
+export GOFLAGS=-mod=mod GOPROXY=off GOSUMDB=off GOTOOLCHAIN=local
+WT=$(mktemp -d /tmp/trywt-XXXX)
+git -C /repo worktree add -q --detach "$WT/w" HEAD || exit 3
+trap 'git -C /repo worktree remove --force "$WT/w" >/dev/null 2>&1; rm -rf "$WT"' EXIT INT TERM
+git -C "$WT/w" apply "$P" || { echo "patch does not apply"; exit 3; }
+(cd "$WT/w" && go build ./... ) || { echo "does not build"; exit 3; }
+mkdir -p "$WT/out"
 for id in "$@"; do
-  out=$(cd /verif && timeout 1500 ./verif check "$id" --tier "${TIER:-quick}" 2>/tmp/trypatch.$id.err)
+  out=$(cd /verif && VERIF_REPO="$WT/w" VERIF_OUT="$WT/out" timeout 3000 ./verif check "$id" --tier "${TIER:-quick}" 2>"$WT/err.$id")
   rc=$?
   echo "$id rc=$rc $(echo "$out" | grep -m1 'VIOLATION\|KNOWN')"
-  [ $rc -ne 0 ] && grep -m2 '^  ' /tmp/trypatch.$id.err | cut -c1-300
+  [ $rc -ne 0 ] && grep -m2 '^  ' "$WT/err.$id" | cut -c1-300
 done
